@@ -458,11 +458,14 @@ def gated_verdict(ctx, info, cnt):
         raise vf.MachineryError("gated schedules: %d of %d behaviours drifted from the model" % (cnt.get("drifted", 0), n))
 
 
+STRESS_BURST = 3  # = Burst of Trace_Free.cfg
+
+
 def stress(ctx, thorough):
     """code -> spec.  Returns a list of deferred verdict thunks' data: (kind, payload); nothing is judged on this thread."""
     rounds = 8 if not thorough else 120
     trace = os.path.join(ctx.scratch, "stress.ndjson")
-    res = ctx.go_driver("./x06rl", "TestStress", {"rounds": rounds, "procs": 3, "ops": 5, "burst": 3, "traceOut": trace},
+    res = ctx.go_driver("./x06rl", "TestStress", {"rounds": rounds, "procs": 3, "ops": 5, "burst": STRESS_BURST, "traceOut": trace},
                         name="stress", timeout=900)
     cnt = res.get("counters", {})
     info = {"rounds": cnt.get("rounds", 0), "calls": cnt.get("calls", 0), "overlapping_calls": cnt.get("overlapping_calls", 0),
@@ -491,20 +494,28 @@ def stress(ctx, thorough):
     if not thorough:
         return out
     # binding (re-checked in the thorough tier): a corrupted history must be rejected
+    # (a corrupted outcome of a single call can be explainable in a concurrent history -- a different interleaving may
+    #  verify a cookie that was charged in the recorded one -- so the corruption is one no interleaving explains: more
+    #  tokens left in a bucket than the burst minus the charges every interleaving has to make)
     lines = [json.loads(x) for x in open(trace)]
-    how = None
-    for ln in lines:
-        if ln.get("ev") == "res" and ln.get("kind") == "silent":
-            ln["kind"], ln["tl"], how = "answer", 1, "a refused request reported as answered"
-            break
-    if how is None:
-        for ln in lines:
-            if ln.get("ev") == "end":
-                k = sorted(k for k, v in ln["tok"].items() if v >= 0)
-                if k:
-                    ln["tok"][k[0]] += 1
-                    how = "one token more than was left"
+    how, reqs, cur, definite = None, {}, {}, {}
+    for ln in lines[1:]:
+        ev = ln.get("ev")
+        if ev == "inv":
+            if ln["op"] == "call":
+                reqs[ln["id"]] = ln
+            cur[ln["p"]] = reqs.get(ln["id"])
+        elif ev == "res":
+            rq = cur.get(ln["p"])
+            if rq and rq["ex"] == "none" and (ln["kind"] == "badcookie" or (ln["kind"] in ("answer", "tc") and rq["cc"] == "none")):
+                definite[rq["c"]] = definite.get(rq["c"], 0) + 1
+        elif ev == "end":
+            for k in sorted(ln["tok"]):
+                if ln["tok"][k] >= 0:
+                    ln["tok"][k] = STRESS_BURST - definite.get(k.split("/")[0], 0) + 1
+                    how = "more tokens left than the burst minus the charges that were certainly made"
                     break
+            break
     if how is None:
         raise vf.MachineryError("tamper test: nothing to corrupt in the recorded history")
     bad = os.path.join(ctx.scratch, "stress_tampered.ndjson")
